@@ -36,16 +36,15 @@ Print Assumptions C11_db_usable_after_any_history.
 (** (b) A closure that returns nil: the committed tree becomes the working
     copy the closure ended with (nil slices stored as empty), i.e. every name
     it bound is bound and every name it removed is gone, together; the reported
-    results are those of the working copy; a reopen does not change it; every
-    later view reads it and every later update starts from it. *)
+    results are those of the working copy; every later view reads it and
+    every later update starts from it. *)
 Theorem C11_commit_makes_all_changes_visible_together : forall s body s' rs o',
   update s body OOk = Some (s', rs, o') ->
   let w := fst (run_ops true (committed s) body) in
   committed s' = normalize w /\
   rs = snd (run_ops true (committed s) body) /\
   (forall p k, lookup p k (committed s') = option_map norm_ent (lookup p k w)) /\
-  committed (reopen s') = committed s' /\
-  (forall body2 o2, snd (fst (view (reopen s') body2 o2)) = snd (run_ops false (committed s') body2)) /\
+  (forall body2 o2, snd (fst (view s' body2 o2)) = snd (run_ops false (committed s') body2)) /\
   (exists s1, begin_rw s' = Some (s1, committed s')).
 Proof.
   intros s body s' rs o' H. destruct (update_committed _ _ _ _ _ H) as (C & R & W & _).
@@ -54,6 +53,18 @@ Proof.
   - unfold begin_rw. rewrite W. eauto.
 Qed.
 Print Assumptions C11_commit_makes_all_changes_visible_together.
+
+(** "... and after the file is reopened": PARTIAL.  In the model a close and
+    reopen is the identity on the committed tree, so what was committed is what
+    a transaction after the reopen sees.  What is missing: that bbolt's file
+    really holds a committed transaction after Close/Open (and after a crash) -
+    durability and crash atomicity of the file are bbolt's and are trusted; the
+    check only exercises clean close+reopen on the real file. *)
+Theorem C11_reopen_sees_committed_partial : forall s,
+  committed (reopen s) = committed s /\ writer (reopen s) = false /\
+  forall body o, snd (fst (view (reopen s) body o)) = snd (run_ops false (committed s) body).
+Proof. intros s. repeat split. Qed.
+Print Assumptions C11_reopen_sees_committed_partial.
 
 (** Committed trees are well formed (every bucket strictly ascending by name,
     so no name is both a key and a nested bucket) and contain no nil values;
@@ -138,6 +149,16 @@ Proof.
 Qed.
 Print Assumptions C11_cursor_order.
 
+(** Deleting through the cursor and re-positioning (the documented way to go
+    on after Cursor.Delete): the entry is removed and Seek of the same key
+    lands on the entry that followed it. *)
+Theorem C11_cursor_delete_then_reseek : forall l k v,
+  ent_get k l = Some (inl v) ->
+  cursor_run true (l, PAt k) [CDelete; CSeek k] =
+  (ent_del k l, [CErr None; match first_gt k l with Some ke => seen ke | None => CKV None end]).
+Proof. exact delete_then_reseek. Qed.
+Print Assumptions C11_cursor_delete_then_reseek.
+
 (** (f) Nested buckets are independent name spaces: operations on buckets at
     or below path p leave the own content (sequence, names, values, which names
     are buckets) of every bucket that is not at or below p unchanged, and leave
@@ -152,6 +173,18 @@ Proof.
   - intros N2. apply (run_ops_incomparable w p q ops root F N N2).
 Qed.
 Print Assumptions C11_namespaces_independent.
+
+(** ... and two operations on buckets at incomparable paths commute: either
+    order gives the same tree and the same two results. *)
+Theorem C11_incomparable_buckets_commute : forall w o1 o2 root,
+  ~ prefix (fst o1) (fst o2) -> ~ prefix (fst o2) (fst o1) ->
+  let '(r1, x1) := exec_op w o1 root in
+  let '(r12, x2) := exec_op w o2 r1 in
+  let '(r2, y2) := exec_op w o2 root in
+  let '(r21, y1) := exec_op w o1 r2 in
+  r12 = r21 /\ x1 = y1 /\ x2 = y2.
+Proof. exact exec_op_comm. Qed.
+Print Assumptions C11_incomparable_buckets_commute.
 
 (** Non-vacuity. *)
 Definition ex_k1 : bytes := [107; 1].
